@@ -59,6 +59,8 @@ func init() { generators["C12"] = genC12 }
 const c12ThriftIDL = `namespace go c12
 
 struct Inner {
+    13: binary Bin,
+    19: map<string, Inner> MSI,
     1: bool B,
     2: byte Y,
     3: i16 I16,
@@ -70,9 +72,7 @@ struct Inner {
     9: map<string, string> M,
     10: set<i32> St,
     12: map<i32, string> MI,
-    13: binary Bin,
     18: list<Inner> LI,
-    19: map<string, Inner> MSI,
 }
 
 struct InnerR {
@@ -93,6 +93,8 @@ struct InnerR {
 }
 
 struct Req {
+    300: required i64 Big,
+    4000: double Subfix,
     1: optional string Msg (go.tag = "json:\"msg\""),
     2: optional double Cookie (api.cookie = "cookie"),
     3: required string Path (api.path = "path"),
@@ -102,8 +104,6 @@ struct Req {
     7: Inner Inner,
     9: i32 Def = 42,
     10: optional string OptDef = "dflt",
-    300: required i64 Big,
-    4000: double Subfix,
 }
 
 struct Resp {
@@ -254,6 +254,8 @@ type c12out struct {
 	pan  bool     // panicked
 	keep [][]byte // the slices actually handed to the caller (retention: must stay intact)
 	msg  string   // diagnostics only (never compared)
+	// the operation itself saw its result change when it overwrote its own (private) source buffer afterwards
+	alias bool
 }
 
 func (a *c12out) same(b *c12out) bool {
@@ -273,7 +275,7 @@ var c12kindNames = map[int]string{
 	11: "thrift.GetByPath", 12: "thrift.PathNode.Load+Marshal", 13: "thrift.MarshalTo", 14: "thrift.descriptor-lookups",
 	15: "proto.GetByPath", 16: "proto.PathNode.Load+Marshal", 17: "proto.MarshalTo", 18: "proto.descriptor-lookups",
 	19: "thrift.BinaryProtocol(pooled).WriteAnyWithDesc", 20: "thrift.ReadAnyWithDesc", 21: "thrift.Skip",
-	22: "j2t.Do(http-mapped, ctx request)", 23: "j2t.Do(http-mapped, ONE request object shared by all goroutines)",
+	22: "j2t.Do(http-mapped, ctx request)", 27: "thrift.DescriptorToPathNode (+Marshal, Fields() order)", 23: "j2t.Do(http-mapped, ONE request object shared by all goroutines)",
 	24: "thrift.NewNode* constructors (result = the node's own buffer)", 25: "j2t.HTTPConv.Do small bodies", 26: "t2j.HTTPConv.Do small bodies",
 }
 
@@ -323,6 +325,13 @@ func c12dumpThrift(sb *strings.Builder, d *thrift.TypeDescriptor, seen map[*thri
 			}
 			sb.WriteString("] fields={")
 			fs := append([]*thrift.FieldDescriptor(nil), st.Fields()...)
+			sb.WriteString("order=[") // the order in which Fields() lists them is part of the descriptor
+			for _, f := range fs {
+				if f != nil {
+					fmt.Fprintf(sb, "%d,", f.ID())
+				}
+			}
+			sb.WriteString("] ")
 			sort.Slice(fs, func(i, j int) bool { return fs[i].ID() < fs[j].ID() })
 			for _, f := range fs {
 				if f == nil {
@@ -657,6 +666,7 @@ func c12buildWorld(r *rng) *c12world {
 			die("C12: fixture j2t failed: %v on %s", err, js)
 		}
 		tb := w.in.add(fmt.Sprintf("thrift-bin-%d", d), tb0)
+		c12cutDocs.thrift = append(c12cutDocs.thrift, tb0)
 		for ci := range t2jcvs {
 			cv := t2jcvs[ci]
 			w.addOp(3, fmt.Sprintf("t2j.Do doc%d opt%d", d, ci), false, func() c12out {
@@ -761,6 +771,16 @@ func c12buildWorld(r *rng) *c12world {
 			out, err := generic.NewValue(reqDesc, tb).MarshalTo(respDesc, &generic.Options{WriteDefault: true, NotCheckRequireNess: false})
 			return c12out{data: out, err: err != nil, keep: [][]byte{out}}
 		})
+		for target := 0; target < 3; target++ {
+			target := target
+			w.addOp(13, fmt.Sprintf("thrift.MarshalTo(source reused) doc%d target%d", d, target), false, func() c12out {
+				res, cp, ok := c12thriftCut(tb, target)
+				if !ok {
+					return c12out{err: true}
+				}
+				return c12out{data: cp, alias: !bytes.Equal(res, cp), keep: [][]byte{res}}
+			})
+		}
 		w.addOp(20, fmt.Sprintf("thrift.ReadAnyWithDesc doc%d", d), false, func() c12out {
 			p := thrift.BinaryProtocol{Buf: tb}
 			v, err := p.ReadAnyWithDesc(reqDesc, false, d%2 == 0, false, true)
@@ -1175,6 +1195,53 @@ service SmSvc {
 		}
 	}
 
+	// read-only APIs that CONSUME a descriptor: DescriptorToPathNode (+ Marshal of the tree), Fields() order, Fields()[0]
+	{
+		dopts := &generic.Options{DescriptorToPathNodeArraySize: 1, DescriptorToPathNodeMapSize: 1, DescriptorToPathNodeMaxDepth: 4,
+			DescriptorToPathNodeWriteOptional: true, DescriptorToPathNodeWriteDefualt: true}
+		for di, td := range []*thrift.TypeDescriptor{reqDesc, respDesc, smallDesc, fnM.Request(), reqDesc.Struct().FieldById(7).Type()} {
+			td := td
+			w.addOp(27, fmt.Sprintf("thrift.DescriptorToPathNode desc%d", di), false, func() c12out {
+				var root generic.PathNode
+				if err := generic.DescriptorToPathNode(td, &root, dopts); err != nil {
+					return c12out{err: true, msg: c12msg(err)}
+				}
+				out, err := root.Marshal(dopts)
+				var sb strings.Builder
+				for _, f := range td.Struct().Fields() {
+					fmt.Fprintf(&sb, "%d,", f.ID())
+				}
+				fmt.Fprintf(&sb, "first=%d", td.Struct().Fields()[0].ID())
+				return c12out{data: c12cat(out, []byte(sb.String())), err: err != nil, keep: [][]byte{out}}
+			})
+		}
+	}
+
+	// cutting with the SOURCE buffer reused by the caller afterwards: the call works on a private, writable copy of the value,
+	// takes a private copy of the result, fills the source with a pattern and looks at the result again. Targets: a
+	// cutting one, the source descriptor itself and a structurally equal descriptor from a second parse (full cover).
+	{
+		svc2, err := thrift.Options{}.NewDescritorFromContent(ctx, "c12.thrift", c12ThriftIDL, map[string]string{}, false)
+		if err != nil {
+			die("C12: second parse: %v", err)
+		}
+		reqDesc2 := svc2.Functions()["M"].Request().Struct().FieldById(1).Type()
+		w.addDump(func() []byte { return c12dumpThriftDesc(reqDesc2) })
+		c12thriftCut = func(doc []byte, target int) ([]byte, []byte, bool) {
+			to := []*thrift.TypeDescriptor{smallDesc, reqDesc, reqDesc2}[target]
+			src := append([]byte(nil), doc...)
+			res, err := generic.NewValue(reqDesc, src).MarshalTo(to, &generic.Options{})
+			if err != nil {
+				return nil, nil, false
+			}
+			cp := append([]byte(nil), res...)
+			for i := range src {
+				src[i] = 0x5A
+			}
+			return res, cp, true
+		}
+	}
+
 	// descriptor lookups (IDL lookups): FieldById / FieldByKey over all ids and names incl. absent ones
 	w.addOp(14, "thrift.lookups", false, func() c12out {
 		var sb strings.Builder
@@ -1191,6 +1258,9 @@ service SmSvc {
 				}
 			}
 			fmt.Fprintf(&sb, "req=%v;", []uint64(st.Requires()))
+			for _, f := range st.Fields() {
+				fmt.Fprintf(&sb, "o%d,", f.ID())
+			}
 		}
 		fn, err := svc.LookupFunctionByMethod("M")
 		fmt.Fprintf(&sb, "fn=%v,%v", fn != nil, err)
@@ -1247,6 +1317,28 @@ service SmSvc {
 	pNest := psvc.LookupMethodByName("F").Input()
 	pSmall := psvc.LookupMethodByName("S").Input()
 	w.addDump(func() []byte { return c12dumpProtoDesc(pReq) }, func() []byte { return c12dumpProtoDesc(pNest) }, func() []byte { return c12dumpProtoDesc(pSmall) })
+	psvc2, err := proto.NewDescritorFromContent(ctx, "c12.proto", c12ProtoIDL, map[string]string{})
+	if err != nil {
+		die("C12: proto second parse: %v", err)
+	}
+	pReq2 := psvc2.LookupMethodByName("M").Input()
+	w.addDump(func() []byte { return c12dumpProtoDesc(pReq2) })
+	c12protoCut = func(desc *proto.TypeDescriptor, doc []byte, target int) ([]byte, []byte, bool) {
+		to := []*proto.TypeDescriptor{pSmall, pReq, pReq2}[target]
+		if desc == nil {
+			desc = pReq
+		}
+		src := append([]byte(nil), doc...)
+		res, err := pgeneric.NewRootValue(desc, src).MarshalTo(to, &pgeneric.Options{})
+		if err != nil {
+			return nil, nil, false
+		}
+		cp := append([]byte(nil), res...)
+		for i := range src {
+			src[i] = 0x5A
+		}
+		return res, cp, true
+	}
 	j2pcv := j2p.NewBinaryConv(conv.Options{})
 	p2jcv := p2j.NewBinaryConv(conv.Options{})
 	j2pcvp, p2jcvp := &j2pcv, &p2jcv
@@ -1324,6 +1416,17 @@ service SmSvc {
 			return c12out{data: c12dumpAny(iv), err: err != nil}
 		})
 		if desc == pReq {
+			c12cutDocs.proto = append(c12cutDocs.proto, pb0)
+			for target := 0; target < 3; target++ {
+				target := target
+				w.addOp(17, fmt.Sprintf("proto.MarshalTo(source reused) doc%d target%d", d, target), false, func() c12out {
+					res, cp, ok := c12protoCut(desc, pb, target)
+					if !ok {
+						return c12out{err: true}
+					}
+					return c12out{data: cp, alias: !bytes.Equal(res, cp), keep: [][]byte{res}}
+				})
+			}
 			w.addOp(17, fmt.Sprintf("proto.MarshalTo doc%d", d), false, func() c12out {
 				out, err := pgeneric.NewRootValue(desc, pb).MarshalTo(pSmall, popts)
 				return c12out{data: out, err: err != nil, keep: [][]byte{out}}
@@ -1433,6 +1536,13 @@ func c12report(format string, a ...interface{}) {
 
 var c12reports int32
 
+// set while the world is built (needs the descriptors); used by the per-document operations and by scenario 1209
+var c12thriftCut = func(doc []byte, target int) ([]byte, []byte, bool) { return nil, nil, false }
+var c12protoCut = func(desc *proto.TypeDescriptor, doc []byte, target int) ([]byte, []byte, bool) {
+	return nil, nil, false
+}
+var c12cutDocs struct{ thrift, proto [][]byte }
+
 func (w *c12world) round(r *rng, idx int, seed uint64, G, P, perG int, mix []int, carried []c12held) (map[int]*c12kindStat, []c12held) {
 	kinds := map[int]bool{}
 	for _, i := range mix {
@@ -1471,6 +1581,10 @@ func (w *c12world) round(r *rng, idx int, seed uint64, G, P, perG int, mix []int
 					st[op.kind] = s
 				}
 				s.calls++
+				if res.alias {
+					s.retainedBad++
+					c12report("C12-MISMATCH what=alias round=%d op=%q (the result changed when the caller overwrote the source buffer)", idx, op.name)
+				}
 				if !res.same(&w.oracle[oi]) {
 					s.mismatch++
 					c12report("C12-MISMATCH what=result round=%d op=%q err=%v/%v panic=%v/%v len=%d/%d msg=%q", idx, op.name, res.err, w.oracle[oi].err, res.pan, w.oracle[oi].pan, len(res.data), len(w.oracle[oi].data), res.msg)
@@ -1506,6 +1620,7 @@ func (w *c12world) round(r *rng, idx int, seed uint64, G, P, perG int, mix []int
 			}
 			t.calls += s.calls
 			t.mismatch += s.mismatch
+			t.retainedBad += s.retainedBad
 		}
 	}
 	// retention: results handed out in the PREVIOUS round are re-validated now (>= one full round of calls later)
@@ -1894,6 +2009,19 @@ func genC12(r *rng, n int) {
 		}
 	}
 	c12requestReuse()
+	// MarshalTo: the result seen after the caller overwrote the source value, and its private copy taken before that
+	for target := 0; target < 3; target++ {
+		for _, d := range c12cutDocs.thrift {
+			if res, cp, ok := c12thriftCut(d, target); ok {
+				out.emit(1209, fi(1), fi(target), fx(res), fx(cp))
+			}
+		}
+		for _, d := range c12cutDocs.proto {
+			if res, cp, ok := c12protoCut(nil, d, target); ok {
+				out.emit(1209, fi(2), fi(target), fx(res), fx(cp))
+			}
+		}
+	}
 	prot := 0
 	// (when a call run alone already wrote into its input the rounds go on with writable inputs: they then report through
 	// the before/after comparison instead of stopping at the first fault)
@@ -1982,7 +2110,7 @@ func genC12(r *rng, n int) {
 		} else {
 			sel := map[int]bool{}
 			for len(sel) < 3+r.intn(5) {
-				sel[1+r.intn(26)] = true
+				sel[1+r.intn(27)] = true
 			}
 			for i, op := range w.ops {
 				if sel[op.kind] {
